@@ -325,6 +325,18 @@ def finish(ctx, replay_fn=None, level="model_checking", rule=""):
             except Infra as e:
                 log("[replay] infrastructure failure while re-running %s: %s" % (path, e))
                 ok = None
+        if not ok and ok is not None and v.get("_batch") and os.path.exists(v["_batch"].get("file", "")):
+            # not reproducible alone: keep the batch and see whether it shows the violation again
+            shutil.copyfile(v["_batch"]["file"], path + ".batch")
+            try:
+                ok = replay_batch(ctx, path)
+            except Infra as e:
+                log("[replay] infrastructure failure while re-running the batch of %s: %s" % (path, e))
+                ok = None
+            if ok:
+                log("  (reproduces only when the generated cases are replayed side by side: shared state in the code under test)")
+            else:
+                os.remove(path + ".batch")
         if ok:
             confirmed += 1
             print("VIOLATION property=%s replay=%s" % (ctx.prop, path), flush=True)
@@ -428,10 +440,32 @@ def replay_run(ctx, path, verbose=False, module="SumdbMonitor", cfg="SumdbMonito
     return False
 
 
+def replay_batch(ctx, path, verbose=False, tries=3):
+    """Some violations only show when cases are replayed side by side (shared state in the code under test): the case
+    alone passes in a fresh process.  The batch of generated cases that showed it is kept next to the replay file and
+    replayed again, with the harness's usual parallelism; the violation counts as reproduced if the same signature
+    comes up again."""
+    batch = path + ".batch"
+    if not os.path.exists(batch):
+        return False
+    v = json.load(open(path))
+    b = v.get("_batch") or {}
+    for _ in range(tries):
+        rep = ctx.vh(["replay", b.get("world", (v.get("case") or {}).get("w", "")), batch] + list(b.get("args", [])))
+        same = [x for x in rep.get("violations", []) if x.get("sig") == v.get("sig")]
+        if same:
+            if verbose:
+                log("  reproduced when the batch is replayed with parallel workers: %s: %s" % (same[0].get("sig"), same[0].get("what", "")[:400]))
+            return True
+    return False
+
+
 def gen_and_replay(ctx, world, module, cfg, floor=1, name=None, vh_args=(), **kw):
     """E2: TLC generates cases (printed JSON), the harness replays them into the real code."""
     r = ctx.tlc(module, cfg, name=name or cfg, **kw)
     rep = ctx.vh(["replay", world, r.outfile] + list(vh_args))
+    for v in rep.get("violations", []):
+        v["_batch"] = {"world": world, "file": r.outfile, "args": list(vh_args)}
     ctx.add_report(rep, floor=floor, engine=(name or cfg) + ":replay")
     return r, rep
 
